@@ -116,7 +116,7 @@ Init ==
        /\ sbit \in ScaleBits /\ spos \in ShiftPoss
        /\ Blank
     \/ /\ Mode = "edge"
-       /\ ib \in InBits /\ ob \in OutBits
+       /\ ib \in InBits /\ ob = 0                  \* the output precision is chosen with the operands (FillOpsEdge)
        /\ \E t \in Targets : tm = <<t[1]>> /\ te = t[2]
        /\ sbit \in ScaleBits /\ spos \in ShiftPoss
        /\ Blank
@@ -155,8 +155,9 @@ FillOpsEdge ==
     /\ Mode = "edge" /\ ph = "sel" /\ sh # -1
     /\ w' \in WVals \X WVals
     /\ x' \in EdgeX \X EdgeX
+    /\ ob' \in OutBits
     /\ ph' = "done"
-    /\ UNCHANGED <<ib, ob, b, tm, te, sbit, spos, sh, sc>>
+    /\ UNCHANGED <<ib, b, tm, te, sbit, spos, sh, sc>>
 
 \* the operands of one output element
 FillOps ==
